@@ -1,6 +1,7 @@
 package main
 
 import (
+	"go/constant"
 	"fmt"
 	"go/token"
 	"go/types"
@@ -546,6 +547,55 @@ func ruleC20HdrSize(c *Checker) {
 					}
 				}
 				c.check(agree, R, wname, fmt.Sprintf("Size store %d", i), p.Pos(st.Pos()), "size, mode and time of the entry come from the same FileInfo", "the header's Size comes from a different file than its mode/time (the body copied would not match the recorded size)")
+			}
+			// a size is recorded only in the header of a regular-file entry: between a Size store and the
+			// WriteHeader the kind is not changed to one that carries no body, and no Size is stored behind such a kind
+			isOther := func(in ssa.Instruction, field string) *ssa.Store {
+				for _, st := range headerFieldStores(w.Fn, h, field) {
+					if st == in {
+						return st
+					}
+				}
+				return nil
+			}
+			nonReg := func(st *ssa.Store) bool {
+				k, ok := st.Val.(*ssa.Const)
+				if !ok || k.Value == nil {
+					return true
+				}
+				v, _ := constant.Int64Val(constant.ToInt(k.Value))
+				return v != '0' && v != 0
+			}
+			nonZero := func(st *ssa.Store) bool {
+				k, ok := st.Val.(*ssa.Const)
+				return !ok || k.Value == nil || constant.Sign(constant.ToInt(k.Value)) != 0
+			}
+			isWH := func(in ssa.Instruction) bool { return in == ssa.Instruction(wh) }
+			for i, st := range headerFieldStores(w.Fn, h, "Size") {
+				if !nonZero(st) {
+					continue
+				}
+				ok, off := mustPassOK(st, func(in ssa.Instruction) bool { return isWH(in) || isOther(in, "Size") != nil }, func(*ssa.Return) bool { return true }, func(in ssa.Instruction) bool {
+					t := isOther(in, "Typeflag")
+					return t != nil && nonReg(t)
+				})
+				pos := p.Pos(st.Pos())
+				if off != nil {
+					pos = p.Pos(off.Pos())
+				}
+				c.check(ok, R, wname, fmt.Sprintf("Size store %d kind", i), pos, "the entry whose size is recorded stays a regular-file entry up to WriteHeader", "after the size has been recorded the entry's kind is changed to one that carries no body, and the size is not taken back: the header sizes no longer add up to the bytes stored")
+			}
+			for i, st := range headerFieldStores(w.Fn, h, "Typeflag") {
+				if !nonReg(st) {
+					continue
+				}
+				ok, off := mustPassOK(st, func(in ssa.Instruction) bool { return isWH(in) || isOther(in, "Typeflag") != nil }, func(*ssa.Return) bool { return true }, func(in ssa.Instruction) bool {
+					t := isOther(in, "Size")
+					return t != nil && nonZero(t)
+				})
+				if !ok {
+					c.fail(R, wname, fmt.Sprintf("Typeflag store %d size", i), p.Pos(off.Pos()), "a size is recorded in the header of an entry whose kind carries no body")
+				}
 			}
 		}
 	}
